@@ -472,6 +472,75 @@ fn run_shared(tracer: &Tracer, rng: &mut StdRng, in_warmer: bool, tag: Value) {
     tracer.emit(json!({"ev":"end","listing":w.dir.listing(),"locks":w.dir.lock_files()}));
 }
 
+/// a Warmer that takes a little while (so that the watch callbacks of successive commits overlap)
+struct SleepWarmer {
+    us: u64,
+}
+impl tantivy::Warmer for SleepWarmer {
+    fn warm(&self, _searcher: &Searcher) -> tantivy::Result<()> {
+        std::thread::sleep(Duration::from_micros(self.us));
+        Ok(())
+    }
+    fn garbage_collect(&self, _live_generations: &[&tantivy::SearcherGeneration]) {}
+}
+
+/// ReloadPolicy::OnCommitWithDelay on tantivy's own RamDirectory: every meta.json write spawns a
+/// thread that reloads the reader.  Commits are issued back to back; the main thread samples what the
+/// reader serves (number of documents = number of commits) until it has seen the last commit or a
+/// long time-out passed.  WatchTrace judges the samples: never a step back.
+fn run_watch(tracer: &Tracer, rng: &mut StdRng, tag: Value) {
+    use tantivy::schema::{Schema, STORED, TEXT};
+    tracer.emit(json!({"ev":"reset","tag":tag}));
+    let mut sb = Schema::builder();
+    let t = sb.add_text_field("t", TEXT | STORED);
+    let index = Index::create_in_ram(sb.build());
+    let mut w: tantivy::IndexWriter = index.writer_with_num_threads(1, 15_000_000).expect("writer");
+    w.set_merge_policy(Box::new(tantivy::indexer::NoMergePolicy));
+    let warmer: Arc<dyn tantivy::Warmer> = Arc::new(SleepWarmer { us: rng.random_range(0..1500) });
+    let warmers = if rng.random_bool(0.5) { vec![Arc::downgrade(&warmer)] } else { vec![] };
+    let reader: IndexReader = index.reader_builder().reload_policy(ReloadPolicy::OnCommitWithDelay).warmers(warmers).try_into().expect("reader");
+    let ncommits = rng.random_range(3..9u64);
+    let mut samples: Vec<u64> = vec![reader.searcher().num_docs()];
+    for _ in 0..ncommits {
+        w.add_document(tantivy::doc!(t => "x")).expect("add");
+        w.commit().expect("commit");
+        samples.push(reader.searcher().num_docs());
+        if rng.random_bool(0.3) {
+            std::thread::sleep(Duration::from_micros(rng.random_range(0..800)));
+        }
+    }
+    let t0 = std::time::Instant::now();
+    let mut fresh = false;
+    while t0.elapsed() < Duration::from_secs(20) {
+        let n = reader.searcher().num_docs();
+        if samples.last() != Some(&n) {
+            samples.push(n);
+        }
+        if n == ncommits {
+            // the last commit is visible: keep sampling for a moment, a late callback must not move the reader back
+            if !fresh {
+                fresh = true;
+            }
+            if t0.elapsed() > Duration::from_millis(60) {
+                break;
+            }
+        }
+        std::thread::sleep(Duration::from_micros(300));
+    }
+    let t1 = std::time::Instant::now();
+    while fresh && t1.elapsed() < Duration::from_millis(40) {
+        let n = reader.searcher().num_docs();
+        if samples.last() != Some(&n) {
+            samples.push(n);
+        }
+        std::thread::sleep(Duration::from_micros(300));
+    }
+    tracer.emit(json!({"ev":"watch_samples","commits":ncommits,"samples":samples,"fresh":fresh}));
+    drop(reader);
+    drop(warmer);
+    let _ = w.wait_merging_threads();
+}
+
 fn main() {
     let a = Args::parse();
     let mode = a.pos.get(0).cloned().unwrap_or_default();
@@ -491,6 +560,11 @@ fn main() {
                 // collector waits for the meta lock
                 let long = r % 50 == 1;
                 run_gated(&tracer, &mut rng, r % 2 == 1, long, json!({"seed":seed,"run":r,"gated":true,"long":long}));
+            }
+        }
+        "watch" => {
+            for r in 0..runs {
+                run_watch(&tracer, &mut rng, json!({"seed":seed,"run":r,"watch":true}));
             }
         }
         "shared" => {
